@@ -12,6 +12,7 @@ import common
 
 KV = re.compile(r"(\w+)=(\S*)")
 POS = re.compile(r"-(first|middle|last)$")
+OVF = re.compile(r"^overflow-(.+)$")       # the variants of a space-dimension overflow (huge counts, sums that wrap around) are positions of one kind
 NO_DISJUNCT_STATES = {"marked_empty", "zero_empty", "empty_undetected", "empty_detected"}
 
 
@@ -58,6 +59,8 @@ def run(exe, judge_except, workdir):
     for i, r in enumerate(recs):
         res["by_dom"][r["dom"]] += 1
         base = POS.sub("", r["kind"]); pm = POS.search(r["kind"]); pos = pm.group(1) if pm else "-"
+        om = OVF.match(r["kind"])
+        if om: base, pos = "overflow", om.group(1)
         res["by_kind"][base] += 1
         res["variants"].add((r["dom"], r["op"], base, r["state"]))
         expect = r["expect"]
